@@ -150,6 +150,19 @@ IvSampleIdx(x, seed) ==
              \cup k0 \cup {BvSub(k, K(1)) : k \in k0}
 Members(x, seed) == {IvMember(x, k) : k \in IvSampleIdx(x, seed)}
 
+\* The members of x among the N+1 nearest at or above and the N+1 nearest at or below the value v
+\* (v a bit vector of x.w bytes): the members that decide a comparison with v / an intersection end.
+IvMembersNear(x, v, N) ==
+  IF BvIsZero(x.st) THEN {x.s}
+  ELSE LET W == IvW(x)
+           n == IvCount(x)
+           K(i) == BvFromNat(i, W)
+           \* index of the last member <= v (0 if v lies below the start, the last index if above the end)
+           kv == IF BvSLt(v, x.s) THEN K(0) ELSE BvUDivFast(BvZExt(BvSub(v, x.s), W), BvZExt(x.st, W))
+           kd == IF BvULe(kv, n) THEN kv ELSE n
+           ks == {BvAdd(kd, K(j)) : j \in 0..(N + 1)} \cup {BvSub(kd, K(j)) : j \in {i \in 0..N : BvULe(K(i), kd)}}
+       IN {IvMember(x, k) : k \in {kk \in ks : BvULe(kk, n)}}
+
 \* The concrete inputs an operation is quantified over: ALL members when the interval is at most
 \* 2 bytes wide and has at most limit+1 members, else the member sample.
 Conc(x, seed, limit) ==
@@ -233,23 +246,22 @@ CondHolds(kind, a, c) ==
     [] kind = "sge" -> BvSLe(c, a)
     [] kind = "uge" -> BvULe(c, a)
     [] kind = "ne" -> a # c
-\* the same on 1-byte signed integers, through the cross-checked BVInt operations
+\* the same on 1-byte signed integers (MC_Interval checks it against BVInt!IBinOp on all pairs)
 CondHoldsI(kind, a, c) ==
-  1 = CASE kind = "sle" -> IBinOp("IntSLessEqual", ToU(a), ToU(c))
-        [] kind = "ule" -> IBinOp("IntLessEqual", ToU(a), ToU(c))
-        [] kind = "sge" -> IBinOp("IntSLessEqual", ToU(c), ToU(a))
-        [] kind = "uge" -> IBinOp("IntLessEqual", ToU(c), ToU(a))
-        [] kind = "ne" -> IBinOp("IntNotEqual", ToU(a), ToU(c))
+  CASE kind = "sle" -> a <= c
+    [] kind = "ule" -> ToU(a) <= ToU(c)
+    [] kind = "sge" -> a >= c
+    [] kind = "uge" -> ToU(a) >= ToU(c)
+    [] kind = "ne" -> a # c
 \* integers lo .. lo+n-1 / hi-n+1 .. hi as bit vectors: candidates for members close to a bound
 IvScan(v, n, up) == {IF up THEN BvAdd(v, BvFromNat(j, Len(v))) ELSE BvSub(v, BvFromNat(j, Len(v))) : j \in 0..(n - 1)}
 ResultShapeOK(x, r) == r.ok => (r.v.w = x.w /\ WellFormed(r.v))
 \* Every member of x that satisfies the condition is still a member of the result, and
 \* "unsatisfiable" is reported only if no member satisfies it.  Quantified over Conc(x) and, for
-\* sampled intervals, additionally over the members of x within distance 48 of the bound.
+\* sampled intervals, additionally over the 4 members of x on either side of the bound.
 Refine(kind, x, c, r, seed) ==
   /\ ResultShapeOK(x, r)
-  /\ LET cand == Conc(x, seed, EnumLimit) \cup
-                 (IF x.w <= 2 THEN {} ELSE {a \in IvScan(c, 48, TRUE) \cup IvScan(c, 48, FALSE) : InGamma(a, x)})
+  /\ LET cand == Conc(x, seed, EnumLimit) \cup (IF x.w <= 2 THEN {} ELSE IvMembersNear(x, c, 3))
          ri == IvI(r.v)
      IN \A a \in cand : CondHolds(kind, a, c) => (r.ok /\ InG(a, r.v, ri))
 \* 1-byte interval against ALL 256 bounds: results[i] is the result for the bound with unsigned
@@ -264,18 +276,19 @@ RefineBatch(kind, x, results) ==
               ri == IvI(r.v)
           IN /\ ResultShapeOK(x, r)
              /\ \A a \in G : CondHoldsI(kind, a, c) => (r.ok /\ InGammaI(a, ri))
-\* Intersection.  Candidates: Conc(x), Conc(y) and, for sampled intervals, the integers within
-\* distance 300 above the larger start and below the smaller end (finds the first and last common
-\* members whenever the least common multiple of the strides is below 300).
+\* Intersection.  <= 2 bytes: every member of x.  Wider: the member samples of x and y and the 25
+\* members of x and of y next to both ends of the common range (finds the first and last common
+\* member whenever stride / gcd(strides) <= 25 for one of the two).
 Intersect(x, y, r, seed) ==
   /\ x.w = y.w
   /\ ResultShapeOK(x, r)
-  /\ LET lo == IF BvSLe(x.s, y.s) THEN y.s ELSE x.s
-         hi == IF BvSLe(x.e, y.e) THEN x.e ELSE y.e
-         cand == Conc(x, seed, EnumLimit) \cup Conc(y, seed + 1, EnumLimit) \cup
-                 (IF x.w <= 2 THEN {} ELSE IvScan(lo, 300, TRUE) \cup IvScan(hi, 300, FALSE))
-         xi == IvI(x)
-         yi == IvI(y)
-         ri == IvI(r.v)
-     IN \A a \in cand : (InG(a, x, xi) /\ InG(a, y, yi)) => (r.ok /\ InG(a, r.v, ri))
+  /\ IF x.w <= 2
+     THEN LET xi == IvI(x)  yi == IvI(y)  ri == IvI(r.v)
+          IN \A a \in GammaEnumI(xi) : InGammaI(a, yi) => (r.ok /\ InGammaI(a, ri))
+     ELSE LET lo == IF BvSLe(x.s, y.s) THEN y.s ELSE x.s
+              hi == IF BvSLe(x.e, y.e) THEN x.e ELSE y.e
+              cand == Members(x, seed) \cup Members(y, seed + 1)
+                      \cup IvMembersNear(x, lo, 24) \cup IvMembersNear(x, hi, 24)
+                      \cup IvMembersNear(y, lo, 24) \cup IvMembersNear(y, hi, 24)
+          IN \A a \in cand : (InGamma(a, x) /\ InGamma(a, y)) => (r.ok /\ InGamma(a, r.v))
 =============================================================================
